@@ -123,6 +123,8 @@ def ev(e: ast.expr, env: dict[str, object]):
                     r = left is right
                 elif isinstance(op, ast.IsNot):
                     r = left is not right
+                elif isinstance(op, (ast.In, ast.NotIn)) and isinstance(right, (list, tuple, set, frozenset, dict)):
+                    r = (left in right) if isinstance(op, ast.In) else (left not in right)
                 else:
                     raise PredUnsupported(norm(e))
             except TypeError:
@@ -232,6 +234,8 @@ def run_stmts(stmts, env: dict, on_call=None, budget: int = 2000, on_store=None)
                 if isinstance(t, (ast.Name, ast.Attribute)):
                     if known:
                         env[norm(t)] = v
+                    elif norm(t) in env.get("__modelled__", {}):
+                        env[norm(t)] = env["__modelled__"][norm(t)]  # the caller models this quantity whatever expression computes it
                     else:
                         env.pop(norm(t), None)
                 elif on_store is None and known:
